@@ -76,20 +76,28 @@ def build_result(spec, names):
                        co2_emission_total_kg=GHGEmissions(*spec["co2"]), **kw)
 
 
+def f1(x):
+    """float of a Python / numpy scalar or a one-element array"""
+    a = np.asarray(x, dtype=float).reshape(-1)
+    if a.size != 1:
+        raise ValueError(f"expected one number, got {a.size}")
+    return float(a[0])
+
+
 def observe(r: FEEMSResult, names):
     """JSON-able snapshot of a result (the observables C19 speaks about)."""
     emis = None
     if r.total_emission_kg is not None:
-        emis = [[k.value, float(v)] for k, v in r.total_emission_kg.items()]
+        emis = [[k.value, f1(v)] for k, v in r.total_emission_kg.items()]
     detail = None if r.detail_result is None else [int(x) for x in r.detail_result["row_id"].values]
     g = r.co2_emission_total_kg
-    return {"duration": None if r.duration_s is None else float(r.duration_s),
-            "ext": [float(getattr(r, n)) for n in names],
-            "load": None if r.load_ratio_genset is None else float(r.load_ratio_genset),
+    return {"duration": None if r.duration_s is None else f1(r.duration_s),
+            "ext": [f1(getattr(r, n)) for n in names],
+            "load": None if r.load_ratio_genset is None else f1(r.load_ratio_genset),
             "emis": emis, "detail": detail,
-            "fuel": [[k[0], k[1], k[2], float(m)] for k, m in F.rec_snapshot(r.multi_fuel_consumption_total_kg)],
-            "co2": [float(g.tank_to_wake_kg_or_gco2eq_per_gfuel), float(g.well_to_tank_kg_or_gco2eq_per_gfuel),
-                    float(g.tank_to_wake_kg_or_gco2eq_per_gfuel_without_slip)]}
+            "fuel": [[k[0], k[1], k[2], f1(m)] for k, m in F.rec_snapshot(r.multi_fuel_consumption_total_kg)],
+            "co2": [f1(g.tank_to_wake_kg_or_gco2eq_per_gfuel), f1(g.well_to_tank_kg_or_gco2eq_per_gfuel),
+                    f1(g.tank_to_wake_kg_or_gco2eq_per_gfuel_without_slip)]}
 
 
 def to_model(obs):
